@@ -353,6 +353,7 @@ func runC17(c *wk.Ctx) {
 			return
 		}
 		cfg := gen.Full()
+		cfg.TypedVariants = true
 		cfg.Structs, cfg.TypedEnum, cfg.Disabled, cfg.WeirdBounds, cfg.EmptyDef = false, false, false, false, false
 		cfg.NoPatternProps, cfg.GoodDefaults = true, true
 		var shape *gen.Shape
